@@ -177,7 +177,7 @@ def main(tier, args):
                 ("sint", 1, ""), ("ser", 8, ""), ("crc", 1, crc_f), ("md5", 8, md5_f), ("aes", 16, aes_f)]
         deadline = 1200
     else:
-        plan = [("b64-dec", 5, ""), ("url-dec", 3, ""), ("b64-rt", 1, ""), ("hex-rt", 1, ""), ("hex-dec", 2, ""), ("url-rt", 1, ""),
+        plan = [("b64-dec", 8, ""), ("url-dec", 3, ""), ("b64-rt", 1, ""), ("hex-rt", 1, ""), ("hex-dec", 2, ""), ("url-rt", 1, ""),
                 ("sint", 1, ""), ("ser", 1, ""), ("crc", 1, crc_f), ("md5", 1, md5_f), ("aes", 2, aes_f)]
         deadline = 60
     only = getattr(args, "only", None)
